@@ -31,6 +31,8 @@ REP_MODULES = [
     "a = 1\nb: int = 2\nc = 0\nc += 1\nd, e = 1, 2\n[h, i] = 3, 4\nj, *k = [5, 6, 7]\n(p, [q, *r]) = 0, [1, 2]\ns = t = 9\n",
     "class Outer:\n    z1, z2 = 1, 2\n    w = v = 3\n\n    class Inner:\n        pass\n\n    @staticmethod\n    def sm():\n        return 0\n\n    @classmethod\n    def cm(cls):\n        return 1\n\n\nclass _Private:\n    def __init__(self):\n        self.q = 1\n",
     "def aB():\n    return 1\n\nclass lower_case:\n    CamelAttr = 1\n\n    def MixedCase(self):\n        return 2\n\nSomeVar = 3\nother_var = 4\n_x = 5\n",
+    # names whose ONLY top-level assignment statement is an augmented one (bound by a star import, or in a nested block, before)
+    "from settings_base import *\nINSTALLED_APPS += ['x']\nif INSTALLED_APPS:\n    searchPath = []\nelse:\n    searchPath = None\nsearchPath *= 2\n",
 ]
 
 
